@@ -89,7 +89,11 @@ def run_histories(tag="histories"):
     binary = lspdrv.build_lsp()
     rdir = new_replay_dir("C15", tag)
     mism, detail = [], {}
-    for name, h in HISTORIES.items():
+    import concurrent.futures as cf
+
+    def one(item):
+        name, h = item
+        mism, detail = [], {}
         d1, d2 = os.path.join(rdir, name, "history"), os.path.join(rdir, name, "fresh")
         disk = dict(h["disk"])
         disk["oal.toml"] = OAL_TOML
@@ -116,6 +120,13 @@ def run_histories(tag="histories"):
             mism.append("%s: diagnostics differ: history %s vs fresh %s" % (name, json.dumps(da2)[:200], json.dumps(db2)[:200]))
         if fa != fb:
             mism.append("%s: definition answers differ: %s vs %s" % (name, json.dumps(fa)[:120], json.dumps(fb)[:120]))
+
+        return mism, detail
+
+    with cf.ThreadPoolExecutor(max_workers=8) as pool_:
+        for m_, d_ in pool_.map(one, list(HISTORIES.items())):
+            mism += m_
+            detail.update(d_)
     with open(os.path.join(rdir, "cmd"), "w") as f:
         f.write("#!/bin/sh\ncd /verif && exec ./check C15 --replay %s\n" % rdir)
     return mism, rdir, detail
@@ -379,10 +390,32 @@ def check():
     except KeyError as e:
         o.inconc(str(e))
 
+    # every file the server reads from disk becomes a known document (diagnostics() resets exactly the known documents,
+    # so a file that is read but not remembered would keep its stale diagnostics for ever)
+    try:
+        f_rf = ML.sel("lsp", "read_file", arg0=r"&mut (lsp::)?Workspace")
+        exr = mirlib.executor([ML])
+        n_disk = 0
+        for p in exr.run(f_rf, arg_names=["self", "loc"]):
+            if p.kind != "return" or not ms.show(p.ret).startswith("Result::Ok"):
+                continue
+            disk = [e for e in p.calls() if e[1].endswith("FileSystem::read_file")]
+            if disk:
+                n_disk += 1
+                ins = [e for e in p.calls() if e[1] in ("VacantEntry::insert", "HashMap::insert", "Entry::or_insert", "Entry::or_insert_with")]
+                okr = len(ins) == 1 and any(t == ms.proj(ms.proj(disk[0][3], ("v", "Ok"), E), ("f", 0), E) for a in ins[0][2] for t in ms.subterms(a))
+                structural("Workspace::read_file: a text read from disk is remembered as a known document", okr)
+            else:
+                structural("Workspace::read_file: a known document is answered from the server's own copy", any(e[1] in ("OccupiedEntry::get", "HashMap::get") for e in p.calls()))
+        if n_disk == 0:
+            o.inconc("Workspace::read_file: no path reads from disk")
+    except KeyError as e:
+        o.inconc(str(e)[:160])
+
     o.samples = [{"harness": h, "verdict": r["verdict"], "covers": r["covers"]} for h, r in kres.items()] + \
                 [{"query": q["name"], "verdict": q["verdict"]} for q in o.queries if q["engine"].startswith("mirsym")][:10]
     kani_failed = [h for h, r in kres.items() if r["verdict"] == "FAILED"]
-    if bad or kani_failed or thorough or os.environ.get("VERIF_REPLAY_ALWAYS"):
+    if True:   # the real-binary oracle always runs (replay of a failing lemma, or translator validation); histories in parallel
         mism, rdir, detail = run_histories()
         o.extra["real_lsp_histories"] = detail
         if bad:
